@@ -11,6 +11,7 @@ def build_ops(R):
     ops, meta = [], []
     def add(op, m): ops.append(op); meta.append(m)
     sizeof = 32768
+    cur_errno = [0]
     # 1. mutation stream over canonical valid settings, three prior states of the object
     for m, base in S.CANON.items():
         danger = S.CANON_DANGER.get(m, [])
@@ -28,7 +29,12 @@ def build_ops(R):
                 if prior == "success": add(CS.crypt_op("rn", 1, b"prior", S.CANON["md5crypt"]), (m, "setup", 0, 0))
                 if prior == "failure": add(CS.crypt_op("rn", 2, b"prior", b"*0"), (m, "setup", 0, 0))
                 e = R.rng.choice(["rn", "r", "rn", "st"])
+                # errno on entry: whatever an unrelated earlier failure of the application left there - a failing call must SET errno, not merely
+                # leave a non-zero value in place (seeded/C05h: `if (!errno) errno = EINVAL`)
+                ev = R.rng.choice([0, 0, 2, 11, 34, 12])
+                if ev != cur_errno[0]: add("ERRNO %d" % ev, (m, "setup", 0, 0)); cur_errno[0] = ev
                 add(CS.crypt_op(e, obj, b"pw", s), (m, "mutation:" + prior, 2, len(s)))
+    add("ERRNO 0", ("generic", "setup", 0, 0))
     # 2. generic invalid requests x sizes x prior states
     generic = [(None, b"$1$salt"), (b"pw", None), (None, None), (b"x" * 512, b"$1$salt"), (b"x" * 513, b"$6$salt"), (b"x" * 1000, b"ab"),
                (b"pw", b""), (b"pw", b"*0"), (b"pw", b"*1"), (b"pw", b"*"), (b"pw", b"*0abc"), (b"pw", b"$"), (b"pw", b"$$"), (b"pw", b"$zz$abc"),
